@@ -13,8 +13,10 @@ Hypotheses, all explicit:
 * `Safe cfg`   — the five loop-owned columns (exposure, outcome, time_in, time_out, 'uncensored') are distinct and
                  user code (recode strings, covariate models, lag targets) does not write to them;
 * `Num01 V`    — `0 ≠ 1`, `0 < 1`, `¬ 0 < 0` in the carrier (needed by the two row filters only);
-* `LagOK`      — a lag pair is not disturbed by the other pairs of the dictionary (Python assigns sequentially).
-  Without it the lag clause is FALSE for the code that exists: see `lag_chain_forward_counterexample`.
+* lag clause   — the lag targets are distinct columns that nothing writes before the predictions of a step (not
+                 loop-owned, not an in_recode / covariate-model column).  No condition on the listing order of the
+                 dictionary: since /repo 8519ecd every lag reads the interval's values before any target is assigned
+                 (`lag_prev_step`, `lag_prev_chain`, `lag_order_irrelevant`).
 
 Not carried by a theorem (labelled partial in the report): the RNG (draws are parameters), `exec`/`eval` of
 arbitrary strings (only the `Assign`/`Cond` grammar is modelled), pandas bookkeeping (filter / reset_index /
@@ -337,10 +339,12 @@ theorem lag_first_step (v : Nat) (hv : v ∉ predWrites cfg) (h : 0 < (simOne cf
   obtain ⟨⟨⟨va, vy, vtin, vtout, vunc⟩, vin⟩, vcov⟩ := hv
   simp [traj, initRow, Env.set, vy, vunc]
 
-/-- interval `j + 1`: whenever a model predicts, the lag column `v` of the pair `(k, v)` holds the value column `k`
-    had at the end of interval `j` (after out_recode, before the lag update) -/
-theorem lag_prev_step (k v : Nat) (hl : LagOK cfg.lags k v) (hv : v ∉ predWrites cfg) (j : Nat)
-    (hj : j + 1 < (simOne cfg tmax draws b).length) :
+/-- interval `j + 1`: whenever a model predicts, the lag column `v` of any pair `(k, v)` of the lag dictionary holds
+    the value column `k` had at the end of interval `j` (after out_recode, before the lag update).  Needed: the lag
+    targets are distinct columns, and `v` is not written before the predictions (not loop-owned, not an in_recode or
+    covariate-model column).  No condition on the listing order and none on `k` (it may itself be a lag target). -/
+theorem lag_prev_step (k v : Nat) (hl : (k, v) ∈ cfg.lags) (hd : (cfg.lags.map (·.2)).Nodup)
+    (hv : v ∉ predWrites cfg) (j : Nat) (hj : j + 1 < (simOne cfg tmax draws b).length) :
     ∀ f ∈ ((simOne cfg tmax draws b)[j + 1]).seen, f v = ((simOne cfg tmax draws b)[j]'(by omega)).pre k := by
   intro f hf
   rw [simOne_getElem] at hf
@@ -349,35 +353,72 @@ theorem lag_prev_step (k v : Nat) (hl : LagOK cfg.lags k v) (hv : v ∉ predWrit
   rw [this]
   show ((simOne cfg tmax draws b)[j]'(by omega)).out v = _
   rw [simOne_getElem]
-  exact runLags_pair _ _ _ hl _
+  exact runLags_pair _ _ _ hl hd _
 
 /-- … and when `k` is not itself a lag target (the exposure, a simulated covariate), that value is the one in the
     output record of interval `j` -/
-theorem lag_prev_record (k v : Nat) (hl : LagOK cfg.lags k v) (hv : v ∉ predWrites cfg)
-    (hk : k ∉ cfg.lags.map (·.2)) (j : Nat) (hj : j + 1 < (simOne cfg tmax draws b).length) :
+theorem lag_prev_record (k v : Nat) (hl : (k, v) ∈ cfg.lags) (hd : (cfg.lags.map (·.2)).Nodup)
+    (hv : v ∉ predWrites cfg) (hk : k ∉ cfg.lags.map (·.2)) (j : Nat)
+    (hj : j + 1 < (simOne cfg tmax draws b).length) :
     ∀ f ∈ ((simOne cfg tmax draws b)[j + 1]).seen, f v = ((simOne cfg tmax draws b)[j]'(by omega)).out k := by
   intro f hf
-  rw [lag_prev_step cfg tmax draws b k v hl hv j hj f hf, simOne_getElem]
+  rw [lag_prev_step cfg tmax draws b k v hl hd hv j hj f hf, simOne_getElem]
   exact (runLags_other _ _ _ hk).symm
 
-example : LagOK Ex.cfg.lags 8 9 ∧ LagOK Ex.cfg.lags 0 8 ∧ 9 ∉ predWrites Ex.cfg ∧ 8 ∉ predWrites Ex.cfg :=
-  ⟨⟨[], [(0, 8), (5, 10)], rfl, by decide, by decide⟩, ⟨[(8, 9)], [(5, 10)], rfl, by decide, by decide⟩,
-   by decide, by decide⟩
-/-- exposure 1,0,0 ⇒ the outcome model of interval 2 sees A_l1 = 0 and A_l2 = 1 -/
+/-- … and when `k` is itself a lag column (a chain `A → A_l1 → A_l2`) that is not touched by in_recode, covariate
+    models or out_recode, the value is the one the models of interval `j` saw: a second-order lag holds the
+    first-order lag's previous value, in any listing order -/
+theorem lag_prev_chain (k v : Nat) (hl : (k, v) ∈ cfg.lags) (hd : (cfg.lags.map (·.2)).Nodup)
+    (hv : v ∉ predWrites cfg) (hk : k ∉ predWrites cfg) (hko : k ∉ targets cfg.outRecode) (j : Nat)
+    (hj : j + 1 < (simOne cfg tmax draws b).length) :
+    ∀ f ∈ ((simOne cfg tmax draws b)[j + 1]).seen, ∀ f' ∈ ((simOne cfg tmax draws b)[j]'(by omega)).seen,
+      f v = f' k := by
+  intro f hf f' hf'
+  rw [lag_prev_step cfg tmax draws b k v hl hd hv j hj f hf]
+  rw [simOne_getElem] at hf' ⊢
+  rw [seen_other cfg tmax j (draws j) _ k hk f' hf']
+  generalize traj cfg tmax draws (initRow cfg b) 0 j = e
+  show envPre cfg tmax j (draws j) e k = e k
+  simp only [predWrites, reserved, List.mem_append, List.mem_cons, List.not_mem_nil, or_false, not_or] at hk
+  obtain ⟨⟨⟨ka, ky, ktin, ktout, kunc⟩, kin⟩, kcov⟩ := hk
+  unfold envPre
+  rw [exec_other _ _ _ hko]
+  have hCov : envCov cfg j (draws j) e k = e k := by
+    unfold envCov envIn
+    rw [runCovs_other _ _ _ _ _ (fun h => kcov ((mem_covWrites_order k cfg.covs).1 h)), exec_other _ _ _ kin,
+      Env.set_other _ _ ktin]
+  have hPlan : envPlan cfg j (draws j) e k = e k := by rw [envPlan_other _ _ _ ka, hCov]
+  unfold envLast envCens envY
+  split <;> split <;> simp [Env.set, ky, ktout, kunc, hPlan]
+
+example : (8, 9) ∈ Ex.cfg.lags ∧ (Ex.cfg.lags.map (·.2)).Nodup ∧ 9 ∉ predWrites Ex.cfg ∧ 8 ∉ predWrites Ex.cfg ∧
+    8 ∉ targets Ex.cfg.outRecode := by decide
+example : (8, 9) ∈ Ex.cfgFwd.lags ∧ (Ex.cfgFwd.lags.map (·.2)).Nodup ∧ 9 ∉ predWrites Ex.cfgFwd := by decide
+/-- exposure 1,0,0 ⇒ the models of interval 2 see A_l1 = 0 and A_l2 = 1 — with the second-order lag listed first … -/
 example : (((simOne Ex.cfgNat 5 Ex.draws Ex.base)[2]'(by decide)).seen.map fun f => (f 8, f 9)) =
     [(0, 1), (0, 1), (0, 1), (0, 1)] := by decide
+/-- … and with the first-order lag listed first (`{'A': 'A_l1', 'A_l1': 'A_l2'}`, the order that used to go wrong) -/
+example : (((simOne Ex.cfgFwd 5 Ex.draws Ex.base)[2]'(by decide)).seen.map fun f => (f 8, f 9)) =
+    [(0, 1), (0, 1), (0, 1), (0, 1)] := by decide
 
-/-- The lag clause needs `LagOK`: with the first-order lag listed before the second-order lag built on it
-    (`{'A': 'A_l1', 'A_l1': 'A_l2'}`) Python's sequential `g[v] = g[k]` gives `A_l2` the *current* exposure, so in the
-    next interval `A_l2` equals `A_l1` instead of the previous interval's `A_l1`.  Witness: exposure 1,0,0; in interval
-    1 the models see A_l2 = 1 while A_l1 was 0 at the end of interval 0 (before the update).  This is what the real
-    code does (known finding of gate D). -/
-theorem lag_chain_forward_counterexample :
-    ∃ (cfg : Config Int) (draws : Nat → StepDraw Int) (b : Env Int) (k v : Nat),
-      Safe cfg ∧ (k, v) ∈ cfg.lags ∧ v ∉ predWrites cfg ∧
-      ∃ (h : 1 < (simOne cfg 5 draws b).length), ∃ f ∈ ((simOne cfg 5 draws b)[1]).seen,
-        f v ≠ ((simOne cfg 5 draws b)[0]).pre k :=
-  ⟨Ex.cfgFwd, Ex.draws, Ex.base, 8, 9, ⟨by decide, by decide⟩, by decide, by decide, by decide, by decide⟩
+/-- the lag update does not depend on the order in which the dictionary lists its pairs (distinct targets) -/
+theorem lag_order_irrelevant (l1 l2 : List (Nat × Nat)) (hperm : l1.Perm l2)
+    (h1 : (l1.map (·.2)).Nodup) (e : Env V) (j : Nat) :
+    runLags l1 e j = runLags l2 e j := by
+  have hp : ∀ p, p ∈ l1 ↔ p ∈ l2 := fun p => hperm.mem_iff
+  have h2 : (l2.map (·.2)).Nodup := ((hperm.map (·.2)).nodup_iff).1 h1
+  by_cases hj : j ∈ l1.map (·.2)
+  · obtain ⟨p, hp1, rfl⟩ := List.mem_map.1 hj
+    obtain ⟨k, v⟩ := p
+    rw [runLags_pair l1 k v hp1 h1, runLags_pair l2 k v ((hp _).1 hp1) h2]
+  · have hj2 : j ∉ l2.map (·.2) := by
+      intro h
+      obtain ⟨p, hp2, rfl⟩ := List.mem_map.1 h
+      exact hj (List.mem_map.2 ⟨p, (hp _).2 hp2, rfl⟩)
+    rw [runLags_other _ _ _ hj, runLags_other _ _ _ hj2]
+
+example : ∀ j, runLags Ex.cfgFwd.lags Ex.base j = runLags Ex.cfgNat.lags Ex.base j :=
+  lag_order_irrelevant _ _ (by decide) (by decide) _
 
 /-! ### Low-memory output -/
 
